@@ -106,12 +106,22 @@ fn proto_brief(m: &v5::ProtocolMessage) -> (String, Option<u16>) {
         v5::ProtocolMessage::PublishRelease(r) => {
             (format!("PUBREL #{}", r.packet().packet_id), Some(r.packet().packet_id.get()))
         }
-        v5::ProtocolMessage::Subscribe(s) => {
-            (format!("SUBSCRIBE #{}", s.packet().packet_id), Some(s.packet().packet_id.get()))
-        }
-        v5::ProtocolMessage::Unsubscribe(s) => {
-            (format!("UNSUBSCRIBE #{}", s.packet().packet_id), Some(s.packet().packet_id.get()))
-        }
+        v5::ProtocolMessage::Subscribe(s) => (
+            format!(
+                "SUBSCRIBE #{} {}",
+                s.packet().packet_id,
+                s.packet().topic_filters.first().map_or("", |f| f.0.as_ref())
+            ),
+            Some(s.packet().packet_id.get()),
+        ),
+        v5::ProtocolMessage::Unsubscribe(s) => (
+            format!(
+                "UNSUBSCRIBE #{} {}",
+                s.packet().packet_id,
+                s.packet().topic_filters.first().map_or("", |f| f.as_ref())
+            ),
+            Some(s.packet().packet_id.get()),
+        ),
         v5::ProtocolMessage::Disconnect(d) => (format!("DISCONNECT c={:?}", d.packet().reason_code), None),
         v5::ProtocolMessage::Ping(_) => ("PINGREQ".to_string(), None),
     }
